@@ -49,7 +49,7 @@ class Ty:
             return smt.REF
         if self.kind == "elem":          # one generic coordinate of an array expression (coordinate view)
             return smt.ELEM_SORT[0]
-        if self.kind == "ebounds":
+        if self.kind in ("ebounds", "ext"):
             return smt.REF
         raise Unsupported(f"no SMT sort for type {self}")
 
